@@ -257,11 +257,16 @@ def run_chunk(chunk_id, payload):
             # reports after the first divergence from the model may be caused
             # by buffers sized for the model's state: not counted
             m = None
+            tool = ""
             for r in res.reports:
                 if r["key"] == v["key"]:
                     m = r.get("i")
+                    tool = r["tool"]
                     break
-            if viol is not None and m is not None and m > viol["line"]:
+            if viol is not None and tool != "lsan" and \
+                    (v["key"].startswith(("asan:", "ubsan:", "abort:",
+                                          "crash:")) and
+                     (m is None or m > viol["line"])):
                 cnt["reports_after_divergence"] = \
                     cnt.get("reports_after_divergence", 0) + 1
                 continue
